@@ -206,9 +206,10 @@ def ew_tol(f, d):
     if b not in ops.FLOATS:
         return (0.0, 0.0)
     eps = 1.2e-7 if b == "float32" else 2.3e-16
+    tiny = 1.2e-38 if b == "float32" else 2.3e-308      # results below the smallest normal may be flushed to zero
     exact = f in ("abs", "negative", "positive", "floor", "ceil", "round", "trunc", "sign", "add", "subtract", "multiply",
-                  "divide", "square", "sqrt") or f in CMP_BIN or f in PRED_UN
-    return (0.0, 0.0) if exact else (4 * eps, 0.0)
+                  "divide", "square", "sqrt", "floor_divide") or f in CMP_BIN or f in PRED_UN
+    return (0.0, 0.0) if exact else (16 * eps, tiny)
 
 
 def fix_operands(rnd, f, d, xs):
@@ -264,6 +265,8 @@ def elementwise_cases(rnd, n, prefix="E", funcs=None, styles=("small", "boundary
             impl = f"out = x {OPSYM[f]} y" if use_op else f"out = ndx.{f}(x, y)"
             meta["via"] = "operator" if use_op else "function"
             orc = f"out = {np_call(f, ['x', 'y'])}"
+            if f == "floor_divide" and ops.base(d) in ops.FLOATS:
+                orc = "out = np.floor(x / y)"        # the standard: the quotient rounded toward -inf
             if ops.nullable(d):
                 orc = f"out = mk({np_call(f, ['data(x)', 'data(y)'])}, mask(x) | mask(y))"
             out.append(mkcase(cid, {"x": xs[0], "y": xs[1]}, impl, orc, meta, rnd, tol))
